@@ -1,6 +1,10 @@
 package an
 
-import "strings"
+import (
+	"strings"
+
+	"golang.org/x/tools/go/ssa"
+)
 
 func init() {
 	register(&PropInfo{ID: "C04", Run: runC04,
@@ -63,7 +67,15 @@ func runC04(p *Prog, r *Report) {
 		cl := sd.Closure(R, 0)
 		if cl.OK() {
 			c := cl.Ev("call", "req.(*context).resendMessage")
-			r.Check(len(c) == 1 && c[0].Args[1] == "$id", R, "callback-resends-captured-id", c.Pos(p), "resendMessage(id captured when arming)", "the timer callback does not call resendMessage with the id captured at arming")
+			okCap := false
+			if len(c) == 1 {
+				// the argument is a variable captured by the closure whose (only) value is the
+				// context's request id read when the timer was armed
+				if call := CallOf(c[0].In); call != nil && len(call.Args) == 2 {
+					okCap = capturedSnapshotOf(call.Args[1], ".reqID")
+				}
+			}
+			r.Check(okCap, R, "callback-resends-captured-id", c.Pos(p), "resendMessage(id captured when arming)", "the timer callback does not call resendMessage with the id captured at arming")
 		}
 	}
 	rs := q.Fn(R, "protocol/req", "context", "resendMessage")
@@ -205,4 +217,48 @@ func runC04(p *Prog, r *Report) {
 		}
 		r.Check(len(early) == 1, R, "closed-pipe-not-requeued", early.Pos(p), "ErrClosed from the pipe ends without re-queueing", "a pipe reporting ErrClosed is re-queued")
 	}
+}
+
+// capturedSnapshotOf: v is (a load of) a variable captured by a closure, and the value the
+// enclosing function stored into that variable is a load of a field whose path ends in suffix.
+func capturedSnapshotOf(v ssa.Value, suffix string) bool {
+	for i := 0; i < 4; i++ {
+		switch x := v.(type) {
+		case *ssa.UnOp:
+			v = x.X
+			continue
+		case *ssa.FreeVar:
+			fn := x.Parent()
+			par := fn.Parent()
+			if par == nil {
+				return false
+			}
+			idx := -1
+			for k, fv := range fn.FreeVars {
+				if fv == x {
+					idx = k
+				}
+			}
+			ok := false
+			EachInstr(par, func(in ssa.Instruction) {
+				mc, isMC := in.(*ssa.MakeClosure)
+				if !isMC || mc.Fn != fn || idx < 0 || idx >= len(mc.Bindings) {
+					return
+				}
+				b := mc.Bindings[idx]
+				if al, isAl := b.(*ssa.Alloc); isAl && al.Referrers() != nil {
+					for _, ref := range *al.Referrers() {
+						if st, isSt := ref.(*ssa.Store); isSt && st.Addr == al && strings.HasSuffix(Desc(st.Val), suffix) {
+							ok = true
+						}
+					}
+				} else if strings.HasSuffix(Desc(b), suffix) {
+					ok = true
+				}
+			})
+			return ok
+		}
+		break
+	}
+	return false
 }
